@@ -270,11 +270,11 @@ func firstValidRune(s string) (rune, bool) {
 
 var sigSeen = map[string]int{}
 
-// failCapped records at most 4 failing inputs per signature (the rest is counted).
+// failCapped records at most 3 failing inputs per signature (the rest is counted).
 func failCapped(res *vh.Result, sig, what string, input any) {
 	sigSeen[sig]++
 	res.Count("oracle_failures[" + sig + "]")
-	if sigSeen[sig] <= 4 {
+	if sigSeen[sig] <= 3 {
 		res.Fail(sig, what, input)
 	}
 }
